@@ -184,15 +184,21 @@ def rule_c16(prog, rep):
                                   '%s[%r] = %d, expected %d (both hex-digit cases must decode)' % (name, chr(c), vals[c], i))
 
     # ---- TB5
+    # the padding clauses are stated for the staged form of the encoder (a 3-byte staging array filled byte by byte and
+    # emitted once per group, the two tail characters chosen by comparing the fill index); an encoder in another form
+    # (e.g. full groups straight from the input plus a separate tail block) is not decided by them - never an alarm
+    staged = any(x.get('kind') == 'VarDecl' and array_len_(qtype(x)) in (3, 4) for x in walk(f_be.body))
+    rep.notes['base64_encoder_form'] = 'staged' if staged else 'other (padding / staging / field clauses TB5a, TB8, TB10 not decided)'
     pads = []
     for x in walk(f_be.body):
-        if x.get('kind') == 'ConditionalOperator':
+        if staged and x.get('kind') == 'ConditionalOperator':
             arms = children(x)[1:]
             if any(int_value(a) == 61 for a in arms):
                 pads.append(x)
-    rep.instance('TB5')
-    rep.oblige('TB5', len(pads) >= 2, {'padding_conditionals': len(pads)})
-    if len(pads) < 2:
+    if staged:
+        rep.instance('TB5')
+        rep.oblige('TB5', len(pads) >= 2, {'padding_conditionals': len(pads)})
+    if staged and len(pads) < 2:
         rep.violation('TB5', f_be, f_be.line, 'padding',
                       'the two tail characters of a Base64 block must each be `cond ? alphabet[...] : \'=\'`; found %d' % len(pads))
     for x in pads:
@@ -458,6 +464,19 @@ def byte_pred(prog, f, e, env, tables):
             stubs = {}
             for cn, mk in CTYPE_FN.items():
                 stubs[cn] = (lambda m: (lambda v, t: int(CTYPE_MASK[m]((v[0] or 0) & 0xFF))))(mk)
+
+            def _strchr(v, t):
+                # strchr("literal", c): non-NULL iff c occurs in the literal, the terminator included
+                import ast as _ast
+                try:
+                    lit = _ast.literal_eval('b' + t[0]) if t and t[0].startswith('"') else None
+                except Exception:
+                    lit = None
+                if lit is None or v[1] is None:
+                    return None
+                return 1 if (v[1] & 0xFF) in (lit + b'\0') else 0
+            stubs['strchr'] = _strchr
+            stubs['index'] = _strchr
             return run_function(prog, tgt, vals, stubs)
         if nm in ('strchr', 'memchr', 'index') and len(args) >= 2:
             st = _string_of(prog, f, args[0])
@@ -556,7 +575,8 @@ def rule_b64_staging(prog, rep, rid='TB8'):
     rep.rule(rid, 'the Base64 staging buffer holds only bytes of the current group or zeros when a group is emitted (pad bits are zero)')
     f = prog.need_func('qbase64_encode')
     bufs = [x for x in walk(f.body) if x.get('kind') == 'VarDecl' and array_len_(qtype(x)) in (3, 4)]
-    rep.broken_if(not bufs, 'qbase64_encode: staging array not found')
+    if not bufs:
+        return          # no staging buffer in this form of the encoder: nothing can be stale (not decided, never an alarm)
     if not bufs:
         return
     B = bufs[0].get('name')
